@@ -50,6 +50,8 @@ func (f cfgField) kindName() string {
 		return "int32"
 	case f.kind == descriptorpb.FieldDescriptorProto_TYPE_INT64:
 		return "int64"
+	case f.kind == descriptorpb.FieldDescriptorProto_TYPE_UINT32:
+		return "uint32"
 	case f.kind == descriptorpb.FieldDescriptorProto_TYPE_BOOL:
 		return "bool"
 	case f.kind == descriptorpb.FieldDescriptorProto_TYPE_BYTES:
@@ -65,7 +67,7 @@ var cfgMessages = map[string][]cfgField{
 		cf("tags", true, "", descriptorpb.FieldDescriptorProto_TYPE_STRING), cf("inner", false, "Inner", 0), cf("inners", true, "Inner", 0),
 		cf("data", false, "", descriptorpb.FieldDescriptorProto_TYPE_BYTES),
 		cf("book_id", false, "", descriptorpb.FieldDescriptorProto_TYPE_STRING), cf("flag", false, "", descriptorpb.FieldDescriptorProto_TYPE_BOOL),
-		cf("big", false, "", descriptorpb.FieldDescriptorProto_TYPE_INT64)},
+		cf("big", false, "", descriptorpb.FieldDescriptorProto_TYPE_INT64), cf("cnt", false, "", descriptorpb.FieldDescriptorProto_TYPE_UINT32)},
 	"Resp": {cf("name", false, "", descriptorpb.FieldDescriptorProto_TYPE_STRING), cf("inner", false, "Inner", 0), cf("items", true, "", descriptorpb.FieldDescriptorProto_TYPE_STRING)},
 }
 
